@@ -101,6 +101,7 @@ def _mk_measure(R, base, lo, hi, kmax):
                 inde = inde * w.step(b[:, 0] - xe[:, 0])
             lne = -0.5 * xe[:, 0] ** 2 / par["sg"] ** 2 + xe[:, 0] * par["m"] / par["sg"] ** 2 + par["c"]
             w.equal("call/element_wise", tm(xe, element_wise=True), xp.exp(lne) * inde)
+            w.raises("call/element_wise/N!=R-refused", (ValueError,), lambda: tm(x, element_wise=True))
         J = J_list(w, par, a, fa, b, fb, max(kmax, 2))
         mass = xp.exp(par["lnmass"])
         w.equal("integrate[1]", tm.integrate("1"), mass * J[0])
@@ -155,12 +156,29 @@ def _mk_pdf(R, base, lo, hi, how):
         if fb:
             ind = ind * w.step(b - x[:, 0][None])
         w.equal("call=u(x)/∫_a^b u inside", tp(x), xp.exp(ln_u(w, par, x)) * ind / (mass * J[0])[:, None])
+        if R != 1:
+            xe = w.arr("xe", R, 1)
+            inde = 1.0 + 0.0 * par["m"]
+            if fa:
+                inde = inde * w.step(xe[:, 0] - a[:, 0])
+            if fb:
+                inde = inde * w.step(b[:, 0] - xe[:, 0])
+            lne = -0.5 * xe[:, 0] ** 2 / par["sg"] ** 2 + xe[:, 0] * par["m"] / par["sg"] ** 2 + par["c"]
+            w.equal("call/element_wise", tp(xe, element_wise=True), xp.exp(lne) * inde / (mass * J[0]))
         w.equal("integrates-to-one", tp.integrate("1"), 1.0 + 0.0 * par["m"])
         mean = moment_spec(w, par, J, 1) / J[0]
         w.equal("mean", tp.get_mean(), mean[:, None])
         w.equal("variance", tp.get_variance(), (moment_spec(w, par, J, 2) / J[0] - mean ** 2)[:, None])
         w.equal("integrate[x]", tp.integrate("x"), mean[:, None])
         w.equal("std^2=variance", tp.get_std() ** 2, tp.get_variance())
+    return ob
+
+
+def _mk_no_limits(base):
+    def ob(w):
+        T = SP.mods()["experimental.truncated_measure"]
+        u, par = gen_1d(w, "R", base)
+        w.raises("no-limit-refused", (ValueError,), lambda: T.TruncatedGaussianMeasure(measure=u))
     return ob
 
 
@@ -228,6 +246,9 @@ def _register():
                                funcs=F + FP, axioms=AX, tier="quick" if quick else "thorough")(_mk_pdf(R, base, lo, hi, how))
             REG.ob(f"additivity/R={R}/{base}", sorts=(["R"] if R != 1 else []), funcs=F, axioms=AX,
                    tier="quick" if R == "R" else "thorough")(_mk_additive(R, base, 4))
+    for base in ("measure", "density"):
+        REG.ob(f"TruncatedGaussianMeasure/{base}/no-limits/refusal", sorts=["R"],
+               funcs=["experimental.truncated_measure.TruncatedGaussianMeasure._check_limits"])(_mk_no_limits(base))
     REG.ob("binom/bounded-0<=i<=k<=12", sorts=[], funcs=["experimental.misc.binom"], bounded="exhaustive 0 <= i <= k <= 12 on the real function")(_mk_binom())
 
 
